@@ -370,6 +370,7 @@ pub fn rep_steps(valid_pub: &[Vec<u8>], small: bool) -> Vec<String> {
         "step op=remove_insert rm=- ins=746370:0050".into(),
         "step op=set_public_key pk=0".into(),
         "step op=set_public_key pk=1".into(),
+        "step op=set_public_key pk=2".into(),
         "step op=set_udp_socket ip=00000000000000000000ffffc0000201 port=9000".into(),
         "step op=set_tcp_socket ip=00000000000000000000ffff7f000001 port=65535".into(),
         "step op=set_ip ip=00000000000000000000ffff0a000001".into(),
@@ -669,6 +670,57 @@ pub fn gen_hist(schemes: &[&str], rng: &mut Rng, thorough: bool, cases: &mut Vec
                     c.lines.push(with_signer(a, s1, f1));
                     cases.push(c);
                 }
+            }
+        }
+        // re-keying by every other key (for CombinedKey key 2 is of the other scheme, and the key sets
+        // rotate through both kinds of own key): every first step by the new key, then ordinary
+        // updates by it
+        for (ki, ks) in keysets.iter().enumerate() {
+            for other in [1usize, 2] {
+                for (si, first) in [
+                    format!("step op=set_public_key pk={other}"),
+                    "step op=set_udp4 port=9".to_string(),
+                    "step op=set_seq seq=77".to_string(),
+                    "step op=remove_key key=756470".to_string(),
+                    "step op=set_udp_socket ip=c0a80001 port=30303".to_string(),
+                    "step op=remove_insert rm=- ins=7a:01".to_string(),
+                ]
+                .iter()
+                .enumerate()
+                {
+                    let mut c = Case::new("hist", scheme, id, "rekey");
+                    id += 1;
+                    c.keys = ks.clone();
+                    c.lines.push(format!("init kind=build calls=seq:{};udp4:30303;ip4:7f000001 signer=0", [5u64, 127, 255][(ki + si) % 3]));
+                    c.lines.push(with_signer(first, other, false));
+                    c.lines.push(with_signer("step op=set_tcp4 port=1", other, false));
+                    c.lines.push("step op=redecode".into());
+                    c.lines.push(with_signer("step op=set_public_key pk=0", 0, false));
+                    cases.push(c);
+                }
+            }
+        }
+        // a signer that answers with a signature that does not verify (wired to the wrong secret),
+        // own key and another key; always the last step of its case
+        for (si, st) in [
+            "step op=set_udp4 port=9",
+            "step op=set_seq seq=77",
+            "step op=remove_key key=756470",
+            "step op=set_udp_socket ip=c0a80001 port=30303",
+            "step op=remove_insert rm=- ins=7a:01",
+            "step op=insert key=7a vt=bytes val=01",
+            "step op=set_public_key pk=1",
+        ]
+        .iter()
+        .enumerate()
+        {
+            for signer in [0usize, 1] {
+                let mut c = Case::new("hist", scheme, id, "bad-signer");
+                id += 1;
+                c.keys = keysets[si % keysets.len()].clone();
+                c.lines.push("init kind=build calls=udp4:30303;ip4:7f000001 signer=0".into());
+                c.lines.push(format!("{st} signer={signer} fail=2 quiet=1"));
+                cases.push(c);
             }
         }
         // the library used while a thread is exiting (from the destructor of a thread-local)
